@@ -701,6 +701,15 @@ def run_batch(spec):
                                            "script": [("event",), ("wait", 0.3)], "quiescent": True, "expected_restarts": 1, "kill_after": 10}
                                     hp["linger"] = 0.25
                                     hp["nth"] = 1
+                                if variant == 0 and pt[0] == "ProcessWatcher":
+                                    # the process watcher stands at this line (first arrival: on its way into its first poll()) while an
+                                    # event-triggered restart stops it, kills the child and starts the next one; the poll() it then makes
+                                    # sees the death the restart itself caused - that must not count as the command having exited
+                                    cfg = {"debounce": 0, "restart_on_exit": True, "behaviours": [{"die_after_polls": r.choice([1, 2])}] * 8,
+                                           "script": [("event",), ("wait", 0.3)], "quiescent": True, "expected_restarts": 1, "kill_after": 10}
+                                    hp["linger"] = 0.25
+                                    hp["nth"] = 1
+                                    b.count("watcher_held_across_an_event_restart_cases")
                                 run_autorestart(b, inst, cfg, ins, hp)
         elif k == "svs1":
             for _ in range(50):
